@@ -862,3 +862,22 @@ Theorem identity_exact_full token ip h id authz h' :
 Proof.
   intros P C. split; [exact (identity_exact _ _ _ _ _ _ P C)|exact (forwarded_only_if_allowed _ _ _ _ _ _ P)].
 Qed.
+
+(* ------------------------------------------------------------------ transport generations *)
+Lemma after_resets_ok n e : ep_wrap e = true -> ep_imp e = true -> ep_imp (after_resets n e) = true.
+Proof.
+  revert e. induction n as [|n IH]; intros e Hw Hi; [exact Hi|].
+  cbn [after_resets]. apply IH; unfold reset_transport, create_transport; cbn; exact Hw.
+Qed.
+
+Lemma send_with_true token ip id h : send_with true token ip id h = send token ip id h.
+Proof. reflexivity. Qed.
+
+(* rebuilding the endpoint's transports (any number of times) is invisible: the request is forwarded through a
+   transport that still contains the impersonating round tripper, so everything proved about [pipeline] holds *)
+Theorem identity_survives_transport_reset n token ip h id authz :
+  pipeline_ep (after_resets n new_endpoint) token ip h id authz = pipeline token ip h id authz.
+Proof.
+  unfold pipeline_ep, pipeline. rewrite (after_resets_ok n new_endpoint eq_refl eq_refl).
+  destruct (filters_core h id authz); try reflexivity.
+Qed.
